@@ -166,11 +166,18 @@ def ordered_scan(w: Walker, bs: BestScan, sizes: List[Term]) -> OrderedScan:
         a = d[2]
         lo, hi = (("const", 0), a[0]) if len(a) == 1 else (a[0], a[1])
         P = ("iter", d, li.lid)
-        v = OrderedScan(bs, "for", P, None, lo, posname=show(P))
+        # `for j in range(1, n)` examines position j; `for j in range(n - 1)` examines position j + 1
+        shift = 0
+        exact = hi in sizes
+        if not exact and any(lin_eq(_sub(lin(hi), lin(n)), {1: -1}) for n in sizes):
+            shift, exact = 1, True
+        pos = P if shift == 0 else ("bin", "+", *sorted([("const", 1), P], key=repr))
+        first = lo if shift == 0 else (("const", lo[1] + 1) if lo[0] == "const" and isinstance(lo[1], int) else None)
+        v = OrderedScan(bs, "for", pos, P if shift else None, first, posname=show(P))
         if len(a) == 3 and a[2] != ("const", 1):
             v.problems.append(("position", f"the scan advances by {show(a[2])} positions per iteration"))
         c = ("cmp", "<", P, hi)
-        v.bound.append((c, hi in sizes))
+        v.bound.append((c, exact))
         base = set(facts(li.guards))
         for e in w.events:
             if e.kind == "break" and e.loops and e.loops[-1] == li.lid:
